@@ -62,7 +62,7 @@ class P:
     rule = ("one fresh process per configuration: a subset of (kind, name) marker descriptors is registered through the cfg-guarded "
             "DescriptorManager re-export (each marker wraps its arguments in a tag unique to its key), then 30 programs covering all "
             "nine node kinds and two names per named kind are parsed and described. Quick: all 2^9 subsets of kinds with one name each; "
-            "thorough adds random (kind, name) sets over 3 names and random programs. Oracle: a 12-line recursive spec of the documented "
+            "thorough adds random (kind, name) sets over 3 names and random programs; both tiers: operator chains with negated infix forms and every node kind on either spine, and random programs over all node kinds, under five configurations. Oracle: a 12-line recursive spec of the documented "
             "rendering. Non-trivial = distinct (configuration, program).")
     assumptions = ["marker descriptors are pure functions of their arguments"]
     trusted_extra = ["hook verif_hooks::DescriptorManager re-export (module descriptor is private)"]
@@ -112,6 +112,17 @@ class P:
                 ops += ["||"] + ["PARSE:" + hx(p) for p in conc_programs] + [";;"]
                 ps += [None] + conc_programs + [None]
             items.append((" ".join(sds + ops), (set(cfg), len(sds), ps)))
+        # operator chains: a negated infix (`x not OP y`, `not (x OP y)`) and every other node kind on the LEFT and on the RIGHT
+        # spine of longer chains, left- and right-associative; random programs over all node kinds
+        chains = ["a not in b && c", "not (a > b) || c", "c && a not in b", "x not in [1, 2] == flag", "a not in b not in c", "(a not in b) + 1 + 2 + 3",
+                  "a + b + c + d + e", "a = b = c = d", "a - b not == c - d && e", "not a || b || c", "-a + b + c", "a++ + b + c", "f(a) + b + c + d",
+                  "[a] + b + c", "(a ? b : c) + d + e", "a || b not in c || d not in e || f", "a * b + c * d - e * f", "a == b not beginWith c",
+                  "not (not (a in b) && c) || d", "! (a not in b) && c", "a += b not in c", "(a not == b) not == c"]
+        rnd_programs = ["; ".join(progs.render_min(t, PT) for t in progs.gen_stmts(rng, rng.choice([2, 3, 4]))) for _ in range(120 if tier == "quick" else 3000)]
+        allk = [(k, name1.get(k, "")) for k in KINDS]
+        for cfg in ([], allk, [("U", "not")], [("U", "not"), ("B", "&&"), ("B", "in"), ("B", "+")], [("B", "||"), ("B", "=="), ("B", "+"), ("R", "a")]):
+            sds = ["SD:%s:%s" % (k, hx(n)) for k, n in cfg]
+            items.append((" ".join(sds + ["PARSE:" + hx(p) for p in chains + rnd_programs]), (set(cfg), len(sds), chains + rnd_programs)))
         for cfg in configs:
             sds = ["SD:%s:%s" % (k, hx(n)) for k, n in cfg]
             ps = list(PROGRAMS) if tier != "quick" else rng.sample(PROGRAMS[:30], 10) + rng.sample(PROGRAMS[30:], 3)
